@@ -59,7 +59,7 @@ struct SIMDVector<int32_t,simd_abi::avx512> {
         _mm512_store_si512((__m512i*)data,value);
     }
 
-    FASTOR_INLINE void mask_load(const scalar_value_type *a, uint8_t mask, bool Aligned=false) {
+    FASTOR_INLINE void mask_load(const scalar_value_type *a, uint16_t mask, bool Aligned=false) {
 #ifdef FASTOR_HAS_AVX512_MASKS
         if (!Aligned)
             value = _mm512_mask_loadu_epi32(value, mask, a);
@@ -78,7 +78,7 @@ struct SIMDVector<int32_t,simd_abi::avx512> {
         unused(Aligned);
 #endif
     }
-    FASTOR_INLINE void mask_store(scalar_value_type *a, uint8_t mask, bool Aligned=false) const {
+    FASTOR_INLINE void mask_store(scalar_value_type *a, uint16_t mask, bool Aligned=false) const {
 #ifdef FASTOR_HAS_AVX512_MASKS
         if (!Aligned)
             _mm512_mask_storeu_epi32(a, mask, value);
